@@ -107,6 +107,29 @@ CLAIMED = {
           'Known finding D19: \'@\' means \'=\' (documented and pinned by the test-suite).'),
     note='Trusted: the real struct and array modules as reference; translator tools/gen/dtypes.py.',
     technique='Generated finite obligations (vm_compute) + Coq codec theorems + oracle against struct/array', design='§5 C18'),
+ 'C05': dict(
+    text=('Coq theorems over the token-level model of pack / bitstore_from_token / _read_dtype_list: the packed length is the sum of the token lengths; unpack on the packed bits returns the values (uint, int, bits, bool, pad, count and the four exp-Golomb tokens, in any order, embedded or positional values); '
+          'formats compose (bits for f1++f2 = bits for f1 followed by bits for f2) and n*(f) is f written n times; too few or too many values raise CreationError. '
+          'Formats drawn from the grammar (every dtype and length spelling, struct codes, nested brackets and factors, whitespace, keyword lengths, one stretchy token) are checked against independently computed per-token encodings, with embedded-value strings, splits and a malformed stream.'),
+    note='PARTIAL: the string front end (tokenparser, preprocess_tokens, expand_brackets, structparser) is not modelled in Coq; it is tied by the grammar oracle (flattening, end-to-end bits) and by termination checks. Two parser defects (non-termination, factor 0) were repaired.',
+    technique='Coq proof (induction over token lists, composition with C02/C10 round trips) + vm_compute correspondence + grammar oracle', design='§5 C05'),
+ 'C14': dict(
+    text=('Coq theorems over the model of Array on its data bits with item width w: with data = concat(items) ++ trailing (each item w bits, trailing shorter than w), len, trailing_bits, indexing (negative and out of range), '
+          'item assignment, item deletion, append (refused with trailing bits) and insert (clamped like list.insert) are exactly the Python list operation on the items and leave the trailing bits untouched. '
+          'Random programs of list operations and element-wise operators on 28 dtypes (incl. bytesN, struct codes, 8-bit floats), with and without trailing bits, are compared with a Python list + encoder reference after every step.'),
+    note='PARTIAL: slicing with steps, extend, pop, reverse, count, equals, copy, dtype change and the element-wise operators are oracle-checked, not proved. Items are identified with their encodings (codec round trips are C02/C11).',
+    technique='Coq proof (abstraction function over concat) + vm_compute correspondence + list-model oracle', design='§5 C14'),
+ 'C19': dict(
+    text=('Coq theorems over the model of __str__: for every content of at most MAX_CHARS*4 bits the printed hex digits and binary tail parse back to exactly the content and the form is not marked truncated; longer contents are marked truncated and show exactly the first MAX_CHARS*4 bits. '
+          'MAX_CHARS is read from the working tree each run. str/repr round trips (class, pos, lsb0), truncation marks, pp (digits in order, columns, trailing bits, no escapes under no_color) and Array.__repr__ are oracle-checked.'),
+    note='PARTIAL: pp layout (group splitting, line width) is checked by the oracle only; repr/eval round trip is oracle-only.',
+    technique='Coq proof (digit-chunk induction) + vm_compute correspondence + output-parsing oracle', design='§5 C19'),
+ 'C20': dict(
+    text=('Coq theorems for the modelled API: every mutator either succeeds or raises a documented exception - never AssertionError, AttributeError, KeyError, ZeroDivisionError or an exhausted fuel (from the refinement to the list spec); '
+          'the exp-Golomb decoders terminate from any non-negative position in any data and fail only with ReadError (fuel sufficiency proved); repetition terminates for every n>=0. '
+          'An introspection-driven sweep calls every public callable and settable property of the four classes, Array, Dtype and pack with adversarial well-typed arguments in sequences under msb0/lsb0 and checks exception classes and post-call validity of every object and of the module options.'),
+    note='PARTIAL by construction: the theorems cover the modelled operations; the sweep is exploration for the rest. Read-only property assignment (Python\'s own AttributeError), undocumented argument types and infeasible sizes are outside the property.',
+    technique='Coq proof (totality / fuel sufficiency) + introspection-driven adversarial sweep', design='§5 C20'),
 }
 
 def main():
@@ -125,8 +148,7 @@ def main():
             'level_note': c['note'],
             'technique': c['technique'],
         })
-    na = [{'property_id': p, 'reason': 'not claimed yet: the Coq model/theorems and check for this property are still being built (see DESIGN.md §9 build order); machine-checked proof does apply'}
-          for p in ALL if p not in CLAIMED]
+    na = [{'property_id': p, 'reason': 'not claimed'} for p in ALL if p not in CLAIMED]
     m = {
         'version': 1,
         'setup_cmd': 'make -C /verif setup',
